@@ -839,3 +839,13 @@ def _df_add_suffix(interp, sv, args, kwargs, node):
     if getattr(sv, "cols", None) is not None or len(args) != 1 or kwargs:
         raise Unsupported("DataFrame.add_suffix form")
     return interp.born(E.opaque(interp, "DataFrame.add_suffix", [sv] + args, None, "DataFrame"))
+
+
+@S.spec("joinable")
+def _joinable(interp, args, kwargs, node):
+    """joinable(dfs, on, suffixes): the tables can be joined without a column-name clash (a fact about the caller's tables: an
+    uninterpreted predicate of the opaque tables)"""
+    dfs, on, suf = args
+    ts = [E._arg_term(interp, x) for x in interp.concrete_iter(dfs)] + [on.term]
+    f = z3.Function(f"joinable{len(ts)}", *([t.sort() for t in ts] + [z3.BoolSort()]))
+    return VBool(f(*ts))
